@@ -7,6 +7,7 @@ pub mod drive;
 pub mod env;
 pub mod gen;
 pub mod obs;
+pub mod posfmt;
 pub mod rdr;
 pub mod refmodel;
 pub mod sweep;
